@@ -23,6 +23,8 @@ Open Scope Z_scope.
     - output end ([output_end_agrees]): the producer info has no unset field afterwards (time exempt when
       static), stated producer fields are kept and were acceptable for the arriving request (grid
       compatible, units of equal dimension, mask table), unset producer fields equal the arriving request's;
+      the time of a STATIC output is never changed (it stays as stated, set or unset), and a consumer of it
+      keeps its own stated time or, having none, carries the producer's (possibly unset) time;
     - for plain adapters (Scale, AvgOverTime, ...) the delivered info IS the producer's and the arriving
       request IS the consumer's, so the two statements relate input and output directly;
     and afterwards all consumers are counted and the output's data gate is open. *)
@@ -69,12 +71,13 @@ Theorem C07_no_info :
   forall cs o o' r, cs <> [] -> o_info o = None -> run_all o cs = (o', r) -> forall l, r <> XOk l.
 Proof. exact no_info_no_exchange. Qed.
 
-(** C07_fanout_order.  If the producer's grid, time, units and all meta entries are set, every consumer
+(** C07_fanout_order.  If the producer's grid, units, all meta entries and (unless the output is static:
+    a static output never adopts a time) its time are set, every consumer
     gets exactly the info it would get alone ([single]), so for any permutation [cs'] of the consumers the
     exchange succeeds as well, every consumer receives the same info, and the producer info is the same. *)
 Theorem C07_fanout_order :
   forall oi st n cs cs' l,
-    fully_set oi -> Permutation cs cs' ->
+    fully_set st oi -> Permutation cs cs' ->
     snd (run_all (init_out (Some oi) st n) cs) = XOk l ->
     Forall2 (fun c ii => single st oi c = XOk ii) cs l /\
     exists l', snd (run_all (init_out (Some oi) st n) cs') = XOk l'
@@ -146,7 +149,7 @@ Qed.
 Definition ex_c1 := mkC [] (mkI None (Some gU43r) (Some MFlex) (Some uKM) [(1, Some 3)]).
 Definition ex_c2 := mkC [APlain] (mkI (Some 4) None (Some MFlex) None []).
 Example C07_fanout_nonvacuous :
-  fully_set ex_full /\ Permutation [ex_c1; ex_c2] [ex_c2; ex_c1]
+  fully_set false ex_full /\ Permutation [ex_c1; ex_c2] [ex_c2; ex_c1]
   /\ exists l, snd (run_all (init_out (Some ex_full) false 2) [ex_c1; ex_c2]) = XOk l /\ length l = 2%nat.
 Proof.
   split; [|split].
